@@ -23,6 +23,7 @@ RULE = (
     "vacuity); a generator supplied by the user was consumed by the run (its state afterwards differs from a fresh generator of the "
     "same seed); when the sampler object is run a second time with another generator, that generator is drawn from and the first one is not. Non-trivial = sampler != importance, or the source supplied through the top-level call."
 )
+RULE += " " + ('For JAX-namespace SMC cases the BlackJAX SMC constructor is given a generator and must hold on to that object; the kernel double draws one bounded integer per step.')
 ASSUMPTIONS = [
     "runs are executed one after the other in one process; each run constructs its own flow, Aspire instance and generators",
     "kernel packages are harness doubles: minipcn's double draws only from the generator it is given; emcee's double (like emcee) is "
